@@ -53,6 +53,21 @@ def tag(v):
     return {'s': 'UNSUPPORTED:' + type(v).__name__}
 
 
+def via_dump(ev, strings, threads):
+    import io
+    import os
+    sys.path.insert(0, os.path.join(os.path.dirname(os.path.abspath(__file__)), '..', '..'))
+    from tools.harness import dumps as D
+    from pykdebugparser.pykdebugparser import PyKdebugParser
+    n = max(strings) + 1 if strings else 0
+    index = {'StringIndex': {strings.get(i, 'unused%d' % i): i for i in range(n)}}
+    blocks = [(D.TAG_LOG_STRINGS, D.plist(index)), (D.TAG_LOG_EVENTS, D.plist({'Events': [ev]}))]
+    data = D.build_v3([(t, p, nm.encode()) for t, p, nm in threads], [[]], blocks)
+    logs = list(PyKdebugParser().os_log_events(io.BytesIO(data)))
+    assert len(logs) == 1, len(logs)
+    return logs[0]
+
+
 def main():
     req = json.load(sys.stdin)
     out = []
@@ -60,7 +75,12 @@ def main():
         strings = {int(k): v for k, v in case['strings']}
         ev = untag(case['event'])
         try:
-            o = OsLogEvent.from_raw_log_event(ev, strings)
+            if case.get('via_dump'):
+                # the same record inside a version-3 dump whose thread map declares the record's thread, read back through
+                # the public API
+                o = via_dump(ev, strings, case['threads'])
+            else:
+                o = OsLogEvent.from_raw_log_event(ev, strings)
             out.append({'ok': [[f.name, tag(getattr(o, f.name))] for f in dataclasses.fields(o)], 'str': str(o)})
         except KeyError:
             out.append({'err': 1})
